@@ -843,6 +843,8 @@ func siteOf(class string) string {
 		return "frac/active_token_list.go:Append"
 	case "search-error":
 		return "frac/active_index.go:Search"
+	case "fetch-bare-id":
+		return "fracmanager/fetcher.go:FetchDocs"
 	case "search-foreign-id":
 		return "frac/active_index.go:inverseLIDs"
 	case "fetch-error-unpublished-block":
